@@ -59,9 +59,9 @@ def fifo(n=60):
 
 
 def gen_cases(rng, tier, escalate=False):
-    n_scripts = {"quick": 70, "thorough": 900}[tier] * (3 if escalate else 1)
-    n_small = {"quick": 30, "thorough": 300}[tier] * (3 if escalate else 1)
-    paths = {"quick": 25, "thorough": 120}[tier]
+    n_scripts = {"quick": 45, "thorough": 800}[tier] * (3 if escalate else 1)
+    n_small = {"quick": 24, "thorough": 300}[tier] * (3 if escalate else 1)
+    paths = {"quick": 20, "thorough": 100}[tier]
     cases = []
     for _ in range(n_scripts):
         peers = rng.choice([3, 3, 4, 5])
@@ -129,16 +129,25 @@ def evaluate(cases, result, tier):
                                       "term": o["coq"][0][:1500]})
     if not terms:
         return
+    tag = os.environ.get("C16_TAG", PID)
     checks = {"model": "check_case", "oracle": "c16_oracle",
-              "frag": "check_fragment", "defined": "check_defined", "services": "check_services",
-              "o1": "oracle_subset", "o2": "oracle_drained", "o3": "oracle_order",
-              "done": "fun c => negb (reading_status c =? 0)", "stuck": "fun c => negb (reading_status c =? 1)",
-              "progress": "fun c => negb (progress_checked c)"}
-    fails, errs = vlib.coq_eval_cases(os.environ.get("C16_TAG", PID), HEADER, "case_t", checks, terms, shard_size=60, timeout=1700)
+              "done": "fun c => negb (reading_status c =? 0)", "progress": "fun c => negb (progress_checked c)"}
+    fails, errs = vlib.coq_eval_cases(tag, HEADER, "case_t", checks, terms, shard_size=60, timeout=1700)
     result["errors"].extend(errs)
     dist["drained history of a script where progress is promised (oracle part 2 applies)"] = len(fails["progress"])
     dist["sequential reading completes"] = len(fails["done"])
-    dist["sequential reading is stuck (never / undefined variable)"] = len(fails["stuck"])
+    dist["sequential reading is stuck (never / undefined variable) or fails"] = len(terms) - len(fails["done"])
+    # which part failed: evaluated only on the failing cases
+    bad = sorted(set(fails["model"]) | set(fails["oracle"]))
+    parts_of = {"frag": "check_fragment", "defined": "check_defined", "services": "check_services",
+                "o1": "oracle_subset", "o2": "oracle_drained", "o3": "oracle_order"}
+    for nm in parts_of:
+        fails[nm] = []
+    if bad:
+        f2, errs2 = vlib.coq_eval_cases(tag + "-parts", HEADER, "case_t", parts_of, [terms[i] for i in bad[:40]], shard_size=10, timeout=900)
+        result["errors"].extend(errs2)
+        for nm, idxs in f2.items():
+            fails[nm] = [bad[j] for j in idxs]
     which = {i: [] for i in fails["model"]}
     for nm in ("frag", "defined", "services"):
         for i in fails[nm]:
